@@ -627,6 +627,7 @@ ima_read_i (SF_PRIVATE *psf, int *ptr, sf_count_t len)
 
 	sptr = ubuf.sbuf ;
 	bufferlen = ARRAY_LEN (ubuf.sbuf) ;
+	bufferlen -= bufferlen % pima->channels ;
 	while (len > 0)
 	{	readcount = (len >= bufferlen) ? bufferlen : (int) len ;
 		count = ima_read_block (psf, pima, sptr, readcount) ;
@@ -658,6 +659,7 @@ ima_read_f (SF_PRIVATE *psf, float *ptr, sf_count_t len)
 
 	sptr = ubuf.sbuf ;
 	bufferlen = ARRAY_LEN (ubuf.sbuf) ;
+	bufferlen -= bufferlen % pima->channels ;
 	while (len > 0)
 	{	readcount = (len >= bufferlen) ? bufferlen : (int) len ;
 		count = ima_read_block (psf, pima, sptr, readcount) ;
@@ -689,6 +691,7 @@ ima_read_d (SF_PRIVATE *psf, double *ptr, sf_count_t len)
 
 	sptr = ubuf.sbuf ;
 	bufferlen = ARRAY_LEN (ubuf.sbuf) ;
+	bufferlen -= bufferlen % pima->channels ;
 	while (len > 0)
 	{	readcount = (len >= bufferlen) ? bufferlen : (int) len ;
 		count = ima_read_block (psf, pima, sptr, readcount) ;
@@ -929,6 +932,7 @@ ima_write_i (SF_PRIVATE *psf, const int *ptr, sf_count_t len)
 
 	sptr = ubuf.sbuf ;
 	bufferlen = ARRAY_LEN (ubuf.sbuf) ;
+	bufferlen -= bufferlen % pima->channels ;
 	while (len > 0)
 	{	writecount = (len >= bufferlen) ? bufferlen : (int) len ;
 		for (k = 0 ; k < writecount ; k++)
@@ -960,6 +964,7 @@ ima_write_f (SF_PRIVATE *psf, const float *ptr, sf_count_t len)
 
 	sptr = ubuf.sbuf ;
 	bufferlen = ARRAY_LEN (ubuf.sbuf) ;
+	bufferlen -= bufferlen % pima->channels ;
 	while (len > 0)
 	{	writecount = (len >= bufferlen) ? bufferlen : (int) len ;
 		for (k = 0 ; k < writecount ; k++)
@@ -991,6 +996,7 @@ ima_write_d (SF_PRIVATE *psf, const double *ptr, sf_count_t len)
 
 	sptr = ubuf.sbuf ;
 	bufferlen = ARRAY_LEN (ubuf.sbuf) ;
+	bufferlen -= bufferlen % pima->channels ;
 	while (len > 0)
 	{	writecount = (len >= bufferlen) ? bufferlen : (int) len ;
 		for (k = 0 ; k < writecount ; k++)
